@@ -29,7 +29,7 @@ var weights = map[string]int{"encrypt": 10, "decrypt": 3, "open": 1, "close": 1,
 
 func TestWorld(t *testing.T) {
 	kit.Steps(kit.Pick(40, 60))
-	kit.Check(t, 400, 48000, func(t *rapid.T) { runHistory(t) })
+	kit.Check(t, 2500, 96000, func(t *rapid.T) { runHistory(t) })
 }
 
 type used struct {
